@@ -1,12 +1,233 @@
 import GridVerif.Model.Proto
 import GridVerif.Model.Elem
+import GridVerif.Model.MolGrid
+import GridVerif.Gen.MolGrid
 
+/-
+  Driver of C07 (line protocol, see harness/props/c07.py).
+
+  Grid spec (shared by `init`, `get`, `integrate`, `savekeys`):
+    <store 0|1> <aim> <atnums vec> <ngrids> { <points mat r×3> <weights vec> <center vec> }*
+  aim:  arr <vec> | other | cbZ | cb1 <float> | cbshort
+    cbZ     callable: aim[j] = 1/(1+atnums[k]) for j in the k-th segment of `indices`
+    cb1 c   callable returning the one-element array [c]        (NumPy broadcast)
+    cbshort callable returning size-1 ones                       (ValueError)
+
+  Fan-out ops work on integer identifiers (which radial grid / preset / sector list an atom
+  receives); the abstract atomic-grid constructor records its arguments in the `points` of the
+  grid it returns, the driver prints them atom by atom.
+-/
 namespace GridVerif.Driver.C07
-open GridVerif.Proto
+open GridVerif.Proto GridVerif.MolGrid
 
-/-- Line-protocol handler of property C07: `C07.<op> args…` ↦ one answer line
-(`none` = malformed, answered `bad-op`). -/
+abbrev Pt := List Float
+
+def errTag : PyErr → String := PyErr.tag
+
+/-- `cbZ`: depends on `atnums` and `indices` (and on nothing else). -/
+def cbZ (_pts : List Pt) (_atc : List Pt) (atnums : List Nat) (indices : List Nat) : List Float :=
+  let segs := indices.zip indices.tail
+  (segs.zip atnums).flatMap fun (ab, z) =>
+    List.replicate (ab.2 - ab.1) (1.0 / (1.0 + Float.ofNat z))
+
+def pAim : List String → Option (AimArg Pt Float × List String)
+  | "arr" :: rest => do
+    let (a, tl) ← pVec pFloat rest
+    pure (.array a, tl)
+  | "other" :: rest => pure (.other, rest)
+  | "cbZ" :: rest => pure (.callable cbZ, rest)
+  | "cb1" :: c :: rest => do
+    let c ← pFloat c
+    pure (.callable (fun _ _ _ _ => [c]), rest)
+  | "cbshort" :: rest => pure (.callable (fun p _ _ _ => List.replicate (p.length - 1) 1.0), rest)
+  | _ => none
+
+def pGrids : Nat → List String → Option (List (AtGrid Pt Float) × List String)
+  | 0, rest => pure ([], rest)
+  | n + 1, rest => do
+    let (pts, r1) ← pMat pFloat rest
+    let (w, r2) ← pVec pFloat r1
+    let (c, r3) ← pVec pFloat r2
+    let (gs, r4) ← pGrids n r3
+    pure (⟨pts, w, c⟩ :: gs, r4)
+
+structure Spec where
+  store : Bool
+  aim : AimArg Pt Float
+  atnums : List Nat
+  grids : List (AtGrid Pt Float)
+
+def pSpec : List String → Option Spec
+  | st :: rest => do
+    let store ← (match st with | "0" => some false | "1" => some true | _ => none)
+    let (aim, r1) ← pAim rest
+    let (atnums, r2) ← pVec pNat r1
+    match r2 with
+    | n :: r3 => do
+      let n ← pNat n
+      let (gs, r4) ← pGrids n r3
+      if r4 ≠ [] then none else pure ⟨store, aim, atnums, gs⟩
+    | [] => none
+  | [] => none
+
+def Spec.build (s : Spec) : Py (MolGrid Pt Float) := MolGrid.init s.atnums s.grids s.aim s.store
+
+def sPts (p : List Pt) : String := sMat sFloat p
+
+def sSub (g : SubGrid Pt Float) : String :=
+  s!"ok {if g.isAtom then 1 else 0} {sPts g.points} {sFloats g.weights} {sFloats g.center}"
+
+def answer {α} (r : Py α) (f : α → String) : String :=
+  match r with
+  | .ok a => f a
+  | .error e => errTag e
+
+/-! ### fan-out on identifiers -/
+
+def pArg : List String → Option (PyArg Nat × List String)
+  | "obj" :: x :: rest => do pure (.obj (← pNat x), rest)
+  | "list" :: rest => do
+    let (l, tl) ← pVec pNat rest
+    pure (.list l, tl)
+  | "dict" :: rest => do
+    let (l, tl) ← pVec pNat rest
+    -- flat key value key value …; later keys win (Python dict literal)
+    let rec pairs : List Nat → Option (List (Nat × Nat))
+      | [] => some []
+      | k :: v :: r => (pairs r).map ((k, v) :: ·)
+      | _ => none
+    let ps ← pairs l
+    pure (.dict (fun z => (ps.reverse.find? (fun p => p.1 == z)).map Prod.snd), tl)
+  | "none" :: rest => pure (.none, rest)
+  | "other" :: rest => pure (.other, rest)
+  | _ => none
+
+/-- Default radial grid of element `z`: identifier `1000 + z`, defined on the regenerated keys. -/
+def dfltId : Nat → Py Nat :=
+  defaultRgrid (Gen.MolGrid.defaultRgridNpt.map fun p => (p.1, p.1)) (fun z => 1000 + z)
+
+def onesAim : AimArg Nat Nat := .callable fun p _ _ _ => p.map fun _ => 1
+
+def sAtoms (m : MolGrid Nat Nat) : String :=
+  "ok " ++ sNats m.indices ++ " " ++ sNats m.points
+
+/-- Answer of a fan-out op: `ok indices points` on success; on an exception the tag followed by
+the number `k` of atoms whose grids were built before it was raised and what they were built
+from (`run k` = the model's per-atom loop on the first `k` atoms; `pre = false`: an exception of
+the statements before the loop). The harness needs the prefix because the *real* `AtomGrid`
+constructor (abstract and total here) may raise earlier. -/
+def fanoutAnswer (full : Py (MolGrid Nat Nat)) (pre : Bool) (n : Nat)
+    (run : Nat → Py (List (AtGrid Nat Nat))) : String :=
+  match full with
+  | .ok m => sAtoms m
+  | .error e =>
+    let gs : List (AtGrid Nat Nat) :=
+      if pre then
+        ((List.range (n + 1)).reverse.findSome? fun k =>
+          match run k with | .ok gs => some gs | .error _ => none).getD []
+      else []
+    errTag e ++ " " ++ toString gs.length ++ " " ++ sNats (gs.flatMap AtGrid.points)
+
 def handle : List String → Option String
+  | "C07.init" :: rest => do
+    let s ← pSpec rest
+    pure (answer s.build fun m =>
+      s!"ok {sNats m.indices} {sPts m.points} {sFloats m.weights} {sFloats m.atweights} " ++
+      s!"{sFloats m.aimWeights} {sPts m.atcoords} {if m.atgrids.isSome then 1 else 0}")
+  | "C07.get" :: which :: idx :: rest => do
+    let s ← pSpec rest
+    let i ← pInt idx
+    match which with
+    | "atomic" => pure (answer (do let m ← s.build; m.getAtomicGrid i) sSub)
+    | "item" => pure (answer (do let m ← s.build; m.getItem i) sSub)
+    | _ => none
+  | "C07.integrate" :: rest => do
+    let (f, r1) ← pVec pFloat rest
+    let s ← pSpec r1
+    pure (answer (do let m ← s.build; m.integrate f) fun x => s!"ok {sFloat x}")
+  | "C07.savekeys" :: rest => do
+    let s ← pSpec rest
+    pure (answer (do let m ← s.build; m.saveKeys) fun ks =>
+      "ok " ++ String.intercalate " " (toString ks.length :: ks))
+  | "C07.preset" :: rest => do
+    let (atnums, r1) ← pVec pNat rest
+    match r1 with
+    | nc :: r2 => do
+      let nc ← pNat nc
+      let (preset, r3) ← pArg r2
+      let (rgrid, r4) ← pArg r3
+      if r4 ≠ [] then none else
+      let mkAt : Nat → Nat → Nat → Nat → Unit → Py (AtGrid Nat Nat) :=
+        fun z gd rad c _ => pure ⟨[z, gd, rad, c], [1, 1, 1, 1], c⟩
+      let selR := Gen.MolGrid.fromPreset_rad dfltId
+      let selP := Gen.MolGrid.fromPreset_gd_type (α := Nat) fun _ => throw .typeError
+      pure (fanoutAnswer (fromPresetWith selR selP mkAt onesAim atnums (List.range nc) preset rgrid
+          none () false) (atnums.length == nc) atnums.length fun k =>
+        presetGrids selR selP mkAt (atnums.take k) (List.range nc) preset rgrid ())
+    | [] => none
+  | "C07.size" :: rest => do
+    let (atnums, r1) ← pVec pNat rest
+    match r1 with
+    | nc :: r2 => do
+      let nc ← pNat nc
+      let (rgrid, r3) ← pArg r2
+      if r3 ≠ [] then none else
+      let mkAt : Nat → Unit → Nat → Unit → Py (AtGrid Nat Nat) :=
+        fun rad _ c _ => pure ⟨[rad, c], [1, 1], c⟩
+      let selR : PyArg Nat → (Nat → Py Nat) → Nat → Py Nat :=
+        fun a d z => Gen.MolGrid.fromSize_rad_grid d a z
+      pure (fanoutAnswer (fromSizeWith selR dfltId mkAt onesAim atnums (List.range nc) () rgrid none
+          () false) true atnums.length fun k =>
+        sizeGrids selR dfltId mkAt (atnums.take k) (List.range nc) () rgrid ())
+    | [] => none
+  | "C07.pruned" :: rest => do
+    let (atnums, r1) ← pVec pNat rest
+    match r1 with
+    | nc :: r2 => do
+      let nc ← pNat nc
+      let (radius, r3) ← (match r2 with
+        | "float" :: x :: r => do pure (RadArg.float (← pNat x), r)
+        | "list" :: r => do
+          let (l, tl) ← pVec pNat r
+          pure (RadArg.list l, tl)
+        | "other" :: r => pure (RadArg.other, r)
+        | _ => none : Option (RadArg Nat × List String))
+      match r3 with
+      | nr :: r4 => do
+        let nr ← pNat nr
+        let (d, r5) ← (match r4 with
+          | "int" :: x :: r => do pure (DArg.int (← pNat x), r)
+          | "list" :: r => do
+            let (l, tl) ← pVec pNat r
+            pure (DArg.list l, tl)
+          | _ => none : Option (DArg Nat × List String))
+        let (s, r6) ← (match r5 with
+          | "none" :: r => pure (SArg.none, r)
+          | "int" :: r => pure (SArg.int, r)
+          | "list" :: r => do
+            let (l, tl) ← pVec pNat r
+            pure (SArg.list l, tl)
+          | _ => none : Option (SArg Nat × List String))
+        let (rgrid, r7) ← pArg r6
+        if r7 ≠ [] then none else
+        let enc : Option Nat → Nat := fun o => match o with | some x => x + 1 | none => 0
+        let mkAt : Nat → Nat → Nat → Option Nat → Option Nat → Nat → Unit → Py (AtGrid Nat Nat) :=
+          fun rad ra rs ds ss c _ => pure ⟨[rad, ra, rs, enc ds, enc ss, c], [1, 1, 1, 1, 1, 1], c⟩
+        let selR := Gen.MolGrid.fromPruned_rad dfltId
+        let sec := prunedSectors nc nr d s
+        pure (fanoutAnswer (fromPrunedWith selR mkAt onesAim atnums (List.range nc) radius
+            (List.range nr) d s rgrid none () false)
+          (atnums.length == nc && (match sec with | .ok _ => true | .error _ => false))
+          atnums.length fun k =>
+            match sec with
+            | .ok (dl, sl) => prunedGrids selR mkAt (atnums.take k) (List.range nc) radius
+                (List.range nr) dl sl rgrid ()
+            | .error e => .error e)
+      | [] => none
+    | [] => none
+  | ["C07.defaultRgrid", z] => do
+    let z ← pNat z
+    pure (answer (defaultRgrid Gen.MolGrid.defaultRgridNpt id z) fun n => s!"ok {n}")
   | _ => none
 
 end GridVerif.Driver.C07
